@@ -135,7 +135,7 @@ Section Tables.
     fold_left (fun acc kv => bind acc (fun a => put a (fst kv) (snd kv))) l (Ok nt).
 
   (** ** chain_hash_table.go *)
-  Definition bucket : Type := list (K * V).
+  Local Notation bucket := (list (K * V)%type).
   Record sc : Type := { sc_b : list bucket; sc_m : nat; sc_n : nat }.
   Definition scMinM : nat := 4.
 
